@@ -136,8 +136,11 @@ class ExprPolicy:
                 allowed = [k for k in allowed if k != 'Seq']
             elif owner == 'NewExpr' and f == 'callee':
                 allowed = [k for k in allowed if k in ('Ident', 'Member', 'Paren')]
-            elif owner in ('AwaitExpr', 'YieldExpr'):
-                allowed = [k for k in allowed if k not in LOW_PREC or k == 'Yield' and False]
+            elif owner == 'AwaitExpr':
+                # `await` binds like a unary operator
+                allowed = [k for k in allowed if k in ('Ident', 'Lit', 'Call', 'Member', 'Paren', 'Array', 'Tpl', 'This', 'Await')]
+            elif owner == 'YieldExpr':
+                allowed = [k for k in allowed if k != 'Seq']
             elif owner == 'ComputedPropName':
                 allowed = [k for k in allowed if k != 'Seq']
             elif owner in ('ArrowExpr', 'BlockStmtOrExpr::Expr'):
@@ -438,6 +441,16 @@ class ExprGrammar(Grammar):
             vn = self.defs['Expr'].variants[v.variant][0]
             if vn in self.ep.budget_kinds:
                 ctx.notes.setdefault('ops_uids', set()).add(uid)
+            # `-a ** b` / `await a ** b` are syntax errors: a unary left operand excludes the exponentiation operator
+            m = re.match(r'^(.*)\.left$', uid)
+            if m and li.role and li.role[0] == 'BinExpr' and vn in ('Unary', 'Await'):
+                pop = ctx.notes.get('binops', {}).get(m.group(1))
+                if isinstance(pop, int):
+                    if pop == EXP:
+                        from interp import Infeasible
+                        raise Infeasible('unary operand of **')
+                elif pop is not None:
+                    ctx.add(pop != EXP)
             # delete needs a member operand (strict-mode parse error otherwise)
             m = re.match(r'^(.*)\.arg$', uid)
             if m and ('e!' + m.group(1) + '.op') in ctx.vars and li.role and li.role[0] == 'UnaryExpr':
